@@ -398,6 +398,7 @@ package state
 // two-state: nothing is given to any session - a key that has a holder afterwards had the same holder before,
 // check links and session-bound prepared queries are only ever removed
 //@ pure holdersOnlyLost() bool = forall k string :: T_kvs(k) != nil && T_kvs(k).Session != "" ==> old(T_kvs(k)) != nil && old(T_kvs(k).Session) == T_kvs(k).Session
+//@ pure sessionsOnlyRemoved() bool = forall id string :: T_sessions(id) == nil || T_sessions(id) == old(T_sessions(id))
 //@ pure linksOnlyRemoved() bool = forall k string :: T_session_checks(k) == nil || T_session_checks(k) == old(T_session_checks(k))
 //@ pure queriesOnlyRemoved() bool = forall k string :: T_prepared_queries(k) == nil || T_prepared_queries(k) == old(T_prepared_queries(k))
 
@@ -420,8 +421,10 @@ package state
 //@ ensures[links-only-removed] linksOnlyRemoved()
 //@ ensures[queries-only-removed] queriesOnlyRemoved()
 //@ ensures[checks-only-replaced] checksKeepIdentity()
+//@ ensures[sessions-only-removed] sessionsOnlyRemoved()
 //@ ensures[catalog-parents-untouched] (forall k string :: T_nodes(k) == old(T_nodes(k))) && (forall k string :: T_services(k) == old(T_services(k)))
 //@ modifies T.sessions, T.kvs, T.tombstones, T.session_checks, T.prepared-queries, T.index, T.checks, map:s.lockDelay.delay
+//@ loop 1 invariant[sessions-only-removed] sessionsOnlyRemoved()
 //@ loop 1 invariant[pos] 0 <= itPos(iter) && itPos(iter) <= itLen(iter)
 //@ loop 1 invariant[cursor] (check != nil ==> itPos(iter) >= 1 && check == itElem(iter, itPos(iter)-1)) && (check == nil ==> itPos(iter) == itLen(iter))
 //@ loop 1 invariant[no-session-created] forall id string :: old(T_sessions(id)) == nil ==> T_sessions(id) == nil
@@ -443,6 +446,7 @@ package state
 //@ ensures[holders-only-lost] err == nil ==> holdersOnlyLost()
 //@ ensures[links-only-removed] linksOnlyRemoved()
 //@ ensures[queries-only-removed] queriesOnlyRemoved()
+//@ ensures[sessions-only-removed] sessionsOnlyRemoved()
 //@ ensures[locks-gone] err == nil && old(T_sessions(sessionID)) != nil ==> noLocksOf(sessionID)
 //@ ensures[check-links-gone] err == nil && old(T_sessions(sessionID)) != nil ==> noCheckLinksOf(sessionID)
 //@ ensures[queries-gone] err == nil && old(T_sessions(sessionID)) != nil ==> noQueriesOf(sessionID)
@@ -635,12 +639,13 @@ package state
 //@ ensures[holders-only-lost] rerr == nil ==> holdersOnlyLost()
 //@ ensures[links-only-removed] linksOnlyRemoved()
 //@ ensures[queries-only-removed] queriesOnlyRemoved()
+//@ ensures[sessions-only-removed] sessionsOnlyRemoved()
 //@ modifies hc.RaftIndex, hc.Status, hc.ServiceName, hc.ServiceTags, T.checks, T.index, T.sessions, T.kvs, T.tombstones, T.session_checks, T.prepared-queries, map:s.lockDelay.delay
 //@ loop 1 invariant[still-to-delete] forall k string :: old(linkOfCheck(T_session_checks(k), hc.Node, string(hc.CheckID))) && T_sessions(old(T_session_checks(k).Session)) != nil ==> exists j int :: range1_idx <= j && j < len(sessions) && sessions[j] == old(T_session_checks(k))
 //@ loop 1 invariant[no-session-created] forall id string :: old(T_sessions(id)) == nil ==> T_sessions(id) == nil
 //@ loop 1 invariant[parents-untouched] (forall k string :: T_nodes(k) == old(T_nodes(k))) && (forall k string :: T_services(k) == old(T_services(k)))
 //@ loop 1 invariant[checks-keep-identity] checksKeepIdentity()
-//@ loop 1 invariant[nothing-given] holdersOnlyLost() && linksOnlyRemoved() && queriesOnlyRemoved()
+//@ loop 1 invariant[nothing-given] holdersOnlyLost() && linksOnlyRemoved() && queriesOnlyRemoved() && sessionsOnlyRemoved()
 //@ loop 1 invariant[node-present] old(nodeAt(hc.Node, hc.PeerName)) != nil && (hc.ServiceID != "" ==> old(T_services(NodeServiceQuery{Node: hc.Node, Service: hc.ServiceID, PeerName: hc.PeerName})) != nil)
 // removing a health check: the row is gone, nothing else leaves the catalog, and (for local checks) every session
 // bound to the check is invalidated in the same transaction
@@ -651,6 +656,7 @@ package state
 //@ ensures[only-this-check-removed] forall k string :: (old(T_checks(k)) == nil || old(T_checks(k)) != old(checkAt(node, string(checkID), peerName))) ==> checkIdentityKept(k)
 //@ ensures[nothing-created] forall k string :: old(T_checks(k)) == nil ==> T_checks(k) == nil
 //@ ensures[removed-or-kept] forall k string :: T_checks(k) == nil || checkIdentityKept(k)
+//@ ensures[sessions-only-removed] sessionsOnlyRemoved()
 //@ ensures[parents-untouched] (forall k string :: T_nodes(k) == old(T_nodes(k))) && (forall k string :: T_services(k) == old(T_services(k)))
 //@ ensures[sessions-of-the-check-invalidated] rerr == nil && peerName == "" && old(checkAt(node, string(checkID), peerName)) != nil ==> forall k string :: old(linkOfCheck(T_session_checks(k), node, string(checkID))) ==> T_sessions(old(T_session_checks(k).Session)) == nil
 //@ ensures[no-session-created] forall id string :: old(T_sessions(id)) == nil ==> T_sessions(id) == nil
@@ -662,6 +668,7 @@ package state
 //@ loop 1 invariant[only-this-check-removed] forall k string :: (old(T_checks(k)) == nil || old(T_checks(k)) != old(checkAt(node, string(checkID), peerName))) ==> checkIdentityKept(k)
 //@ loop 1 invariant[nothing-created] forall k string :: old(T_checks(k)) == nil ==> T_checks(k) == nil
 //@ loop 1 invariant[removed-or-kept] forall k string :: T_checks(k) == nil || checkIdentityKept(k)
+//@ loop 1 invariant[sessions-only-removed] sessionsOnlyRemoved()
 // node registration and removal are NOT under contract (node renames, similar-name checks, coordinates and the
 // service/check cascades of deleteNodeTxn use indexes outside the table model). ASSUMED frames only: which tables
 // they may write. No claim about what they write.
@@ -669,10 +676,64 @@ package state
 //@ trusted
 //@ results rerr
 //@ modifies T.nodes, T.index, node.RaftIndex
+// every session of a node (index "node" on the sessions table)
+//@ func nodeSessionsTxn
+//@ props C04 C07
+//@ results result, err
+//@ ensures[only-sessions-of-the-node] err == nil ==> forall j int :: 0 <= j && j < len(result) ==> result[j] != nil && strLower(result[j].Node) == strLower(node) && T_sessions(result[j].ID) == result[j]
+//@ ensures[every-session-of-the-node] err == nil ==> forall id string :: T_sessions(id) != nil && strLower(T_sessions(id).Node) == strLower(node) ==> exists j int :: 0 <= j && j < len(result) && result[j] == T_sessions(id)
+//@ modifies nothing
+//@ loop 1 invariant[pos] 0 <= itPos(sessions) && itPos(sessions) <= itLen(sessions)
+//@ loop 1 invariant[cursor] (session != nil ==> itPos(sessions) >= 1 && session == itElem(sessions, itPos(sessions)-1)) && (session == nil ==> itPos(sessions) == itLen(sessions))
+//@ loop 1 invariant[collected] len(result) == ite(session != nil, itPos(sessions) - 1, itPos(sessions)) && forall j int :: 0 <= j && j < len(result) ==> result[j] == itElem(sessions, j).(*structs.Session)
+
+//@ func deleteCoordinateTxn
+//@ props C07
+//@ results err
+//@ requires coord != nil
+//@ ensures[removed] err == nil ==> T_coordinates(coord) == nil
+//@ ensures[only-this-one] forall k string :: T_coordinates(k) == old(T_coordinates(k)) || (T_coordinates(k) == nil && old(T_coordinates(k)) == old(T_coordinates(coord)))
+//@ modifies T.coordinates, T.index
+
+//@ pure serviceOfNode(sn *structs.ServiceNode, node string, peer string) bool = sn != nil && strLower(sn.PeerName) == strLower(peer) && strLower(sn.Node) == strLower(node)
+//@ pure checkOfNode(c *structs.HealthCheck, node string, peer string) bool = c != nil && strLower(c.PeerName) == strLower(peer) && strLower(c.Node) == strLower(node)
+
+// removing a node removes, in the same transaction, every service instance and health check registered on it, its
+// coordinates and (for local nodes) invalidates every session held on it
 //@ func Store.deleteNodeTxn
-//@ trusted
+//@ props C07 C04
 //@ results rerr
-//@ modifies T.nodes, T.services, T.checks, T.index, T.sessions, T.kvs, T.tombstones, T.session_checks, T.prepared-queries, map:s.lockDelay.delay
+//@ ensures[node-gone] rerr == nil ==> nodeAt(nodeName, peerName) == nil
+//@ ensures[its-services-gone] rerr == nil && old(nodeAt(nodeName, peerName)) != nil ==> forall k string :: !serviceOfNode(T_services(k), nodeName, peerName)
+//@ ensures[its-checks-gone] rerr == nil && old(nodeAt(nodeName, peerName)) != nil ==> forall k string :: !checkOfNode(T_checks(k), nodeName, peerName)
+//@ ensures[its-coordinates-gone] rerr == nil && peerName == "" && old(nodeAt(nodeName, peerName)) != nil ==> forall k string :: T_coordinates(k) != nil ==> strLower(T_coordinates(k).Node) != strLower(nodeName)
+//@ ensures[its-sessions-gone] rerr == nil && peerName == "" && old(nodeAt(nodeName, peerName)) != nil ==> forall id string :: T_sessions(id) != nil ==> strLower(T_sessions(id).Node) != strLower(nodeName)
+//@ ensures[only-this-node-removed] forall k string :: T_nodes(k) == old(T_nodes(k)) || (T_nodes(k) == nil && old(T_nodes(k)) == old(nodeAt(nodeName, peerName)))
+//@ ensures[only-its-services-removed] forall k string :: T_services(k) == old(T_services(k)) || (T_services(k) == nil && old(serviceOfNode(T_services(k), nodeName, peerName)))
+//@ ensures[no-session-created] forall id string :: old(T_sessions(id)) == nil ==> T_sessions(id) == nil
+//@ modifies T.nodes, T.services, T.checks, T.coordinates, T.index, T.sessions, T.kvs, T.tombstones, T.session_checks, T.prepared-queries, map:s.lockDelay.delay
+//@ loop 1 invariant[pos] 0 <= itPos(services) && itPos(services) <= itLen(services)
+//@ loop 1 invariant[cursor] (service != nil ==> itPos(services) >= 1 && service == itElem(services, itPos(services)-1)) && (service == nil ==> itPos(services) == itLen(services))
+//@ loop 1 invariant[collected] len(deleteServices) == ite(service != nil, itPos(services) - 1, itPos(services)) && forall j int :: 0 <= j && j < len(deleteServices) ==> deleteServices[j] == itElem(services, j).(*structs.ServiceNode)
+//@ loop 2 invariant[still-to-delete] forall k string :: serviceOfNode(T_services(k), nodeName, peerName) ==> exists j int :: range2_idx <= j && j < len(deleteServices) && deleteServices[j] == T_services(k)
+//@ loop 2 invariant[listed-belong] forall j int :: 0 <= j && j < len(deleteServices) ==> serviceOfNode(deleteServices[j], nodeName, peerName)
+//@ loop 2 invariant[only-its-services-removed] forall k string :: T_services(k) == old(T_services(k)) || (T_services(k) == nil && old(serviceOfNode(T_services(k), nodeName, peerName)))
+//@ loop 2 invariant[rest] (forall k string :: T_nodes(k) == old(T_nodes(k))) && (forall id string :: old(T_sessions(id)) == nil ==> T_sessions(id) == nil) && sessionsOnlyRemoved() && (forall k string :: T_coordinates(k) == old(T_coordinates(k)))
+//@ loop 3 invariant[pos] 0 <= itPos(checks) && itPos(checks) <= itLen(checks)
+//@ loop 3 invariant[cursor] (check != nil ==> itPos(checks) >= 1 && check == itElem(checks, itPos(checks)-1)) && (check == nil ==> itPos(checks) == itLen(checks))
+//@ loop 3 invariant[collected] len(deleteChecks) == ite(check != nil, itPos(checks) - 1, itPos(checks)) && forall j int :: 0 <= j && j < len(deleteChecks) ==> deleteChecks[j] == itElem(checks, j).(*structs.HealthCheck)
+//@ loop 4 invariant[still-to-delete] forall k string :: checkOfNode(T_checks(k), nodeName, peerName) ==> exists j int :: range4_idx <= j && j < len(deleteChecks) && T_checks(deleteChecks[j]) == T_checks(k)
+//@ loop 4 invariant[listed-belong] forall j int :: 0 <= j && j < len(deleteChecks) ==> checkOfNode(deleteChecks[j], nodeName, peerName)
+//@ loop 4 invariant[rest] (forall id string :: old(T_sessions(id)) == nil ==> T_sessions(id) == nil) && sessionsOnlyRemoved()
+//@ loop 5 invariant[pos] 0 <= itPos(coords) && itPos(coords) <= itLen(coords)
+//@ loop 5 invariant[cursor] (coord != nil ==> itPos(coords) >= 1 && coord == itElem(coords, itPos(coords)-1)) && (coord == nil ==> itPos(coords) == itLen(coords))
+//@ loop 5 invariant[collected] len(coordsToDelete) == ite(coord != nil, itPos(coords) - 1, itPos(coords)) && forall j int :: 0 <= j && j < len(coordsToDelete) ==> coordsToDelete[j] == itElem(coords, j).(*structs.Coordinate)
+//@ loop 6 invariant[still-to-delete] forall k string :: T_coordinates(k) != nil && strLower(T_coordinates(k).Node) == strLower(nodeName) ==> exists j int :: range6_idx <= j && j < len(coordsToDelete) && coordsToDelete[j] == T_coordinates(k)
+//@ loop 6 invariant[listed-present] forall j int :: 0 <= j && j < len(coordsToDelete) ==> coordsToDelete[j] != nil
+//@ loop 7 invariant[still-to-delete] forall id string :: T_sessions(id) != nil && strLower(T_sessions(id).Node) == strLower(nodeName) ==> exists j int :: range7_idx <= j && j < len(toDelete) && toDelete[j] == T_sessions(id)
+//@ loop 7 invariant[listed-are-sessions] forall j int :: 0 <= j && j < len(toDelete) ==> toDelete[j] != nil
+//@ loop 7 invariant[cascade-done] nodeAt(nodeName, peerName) == nil && (forall k string :: !serviceOfNode(T_services(k), nodeName, peerName)) && (forall k string :: !checkOfNode(T_checks(k), nodeName, peerName)) && (forall k string :: T_coordinates(k) != nil ==> strLower(T_coordinates(k).Node) != strLower(nodeName))
+//@ loop 7 invariant[rest] (forall id string :: old(T_sessions(id)) == nil ==> T_sessions(id) == nil) && sessionsOnlyRemoved() && (forall k string :: T_nodes(k) == old(T_nodes(k)) || (T_nodes(k) == nil && old(T_nodes(k)) == old(nodeAt(nodeName, peerName)))) && (forall k string :: T_services(k) == old(T_services(k)) || (T_services(k) == nil && old(serviceOfNode(T_services(k), nodeName, peerName))))
 // ---- C07: the derived views (mesh topology, gateway links, kind-service-names, virtual IPs) are NOT under contract.
 // Their maintenance functions are used through ASSUMED frames: they touch only their own derived tables and the
 // index table, never the nodes, services, checks or session tables (listed under trusted_contracts in the evidence).
@@ -714,17 +775,60 @@ package state
 //@ ensures[only-its-checks-removed] forall k string :: checkIdentityKept(k) || (T_checks(k) == nil && old(checkOfService(T_checks(k), nodeName, serviceID, peerName)))
 //@ ensures[nodes-untouched] forall k string :: T_nodes(k) == old(T_nodes(k))
 //@ ensures[no-session-created] forall id string :: old(T_sessions(id)) == nil ==> T_sessions(id) == nil
+//@ ensures[sessions-only-removed] sessionsOnlyRemoved()
+//@ modifies T.services, T.checks, T.index, T.sessions, T.kvs, T.tombstones, T.session_checks, T.prepared-queries, map:s.lockDelay.delay
 //@ loop 1 invariant[pos] 0 <= itPos(checks) && itPos(checks) <= itLen(checks)
 //@ loop 1 invariant[cursor] (check != nil ==> itPos(checks) >= 1 && check == itElem(checks, itPos(checks)-1)) && (check == nil ==> itPos(checks) == itLen(checks))
 //@ loop 1 invariant[collected] len(deleteChecks) == ite(check != nil, itPos(checks) - 1, itPos(checks)) && forall j int :: 0 <= j && j < len(deleteChecks) ==> deleteChecks[j] == itElem(checks, j).(*structs.HealthCheck)
 //@ loop 2 invariant[still-to-delete] forall k string :: checkOfService(T_checks(k), nodeName, serviceID, peerName) ==> exists j int :: range2_idx <= j && j < len(deleteChecks) && T_checks(deleteChecks[j]) == T_checks(k)
 //@ loop 2 invariant[listed-belong] forall j int :: 0 <= j && j < len(deleteChecks) ==> checkOfService(deleteChecks[j], nodeName, serviceID, peerName)
 //@ loop 2 invariant[only-its-checks-removed] forall k string :: checkIdentityKept(k) || (T_checks(k) == nil && old(checkOfService(T_checks(k), nodeName, serviceID, peerName)))
-//@ loop 2 invariant[rest-untouched] (forall k string :: T_nodes(k) == old(T_nodes(k))) && (forall k string :: T_services(k) == old(T_services(k))) && (forall id string :: old(T_sessions(id)) == nil ==> T_sessions(id) == nil)
-// service registration is NOT under contract (gateway links, mesh topology, virtual IPs). ASSUMED frame only.
-//@ func ensureServiceTxn
+//@ loop 2 invariant[rest-untouched] (forall k string :: T_nodes(k) == old(T_nodes(k))) && (forall k string :: T_services(k) == old(T_services(k))) && (forall id string :: old(T_sessions(id)) == nil ==> T_sessions(id) == nil) && sessionsOnlyRemoved()
+// ---- C07: registering a service instance. The derived-view maintenance it calls is used through ASSUMED frames
+// (see the block above deleteServiceTxn); what is proved: the node must exist, the instance is stored under its own
+// key, and no other node, service or check row changes.
+//@ func checkGatewayWildcardsAndUpdate
 //@ trusted
+//@ results err
+//@ modifies T.index
+//@ func checkGatewayAndUpdate
+//@ trusted
+//@ results err
+//@ modifies T.index
+//@ func upsertKindServiceName
+//@ trusted
+//@ results err
+//@ modifies T.index
+//@ func updateMeshTopology
+//@ trusted
+//@ results err
+//@ modifies T.index
+//@ func virtualIPsSupported
+//@ trusted
+//@ results ok, err
+//@ modifies nothing
+//@ func terminatingGatewayVirtualIPsSupported
+//@ trusted
+//@ results ok, err
+//@ modifies nothing
+//@ func assignServiceVirtualIP
+//@ trusted
+//@ results vip, err
+//@ modifies T.index
+//@ func getTermGatewayVirtualIPs
+//@ trusted
+//@ results addrs, err
+//@ modifies T.index
+
+//@ func ensureServiceTxn
+//@ props C07
 //@ results rerr
+//@ requires svc != nil
+//@ ensures[node-must-exist] rerr == nil ==> old(nodeAt(node, svc.PeerName)) != nil
+//@ ensures[missing-node-is-an-error] old(nodeAt(node, svc.PeerName)) == nil ==> rerr != nil
+//@ ensures[instance-stored] rerr == nil ==> serviceAt(node, svc.ID, svc.PeerName) != nil
+//@ ensures[only-this-instance-written] forall k string :: T_services(k) == old(T_services(k)) || (T_services(k) != nil && T_services(k) == serviceAt(node, svc.ID, svc.PeerName))
+//@ ensures[nodes-and-checks-untouched] (forall k string :: T_nodes(k) == old(T_nodes(k))) && (forall k string :: T_checks(k) == old(T_checks(k)))
 //@ modifies T.services, T.index, svc.TaggedAddresses
 
 //@ pure checkAt(node string, id string, peer string) *structs.HealthCheck = T_checks(NodeCheckQuery{Node: node, CheckID: id, PeerName: peer})
